@@ -325,11 +325,15 @@ class R1:
                 if r:
                     return r
         initp = self.init_phase(cls)
-        if f.m in initp:
-            return None
         vals = self.validations(cls, mq)
         if not vals:
             return None
+        if f.m in initp:
+            # the site function also runs during initialisation: every same-object
+            # caller must either guard the call or itself run only after init
+            why = self.callers_after_validation(f, cls, X.key(e, f, self.res), initp, 0, set())
+            if not why:
+                return None
         # all writes to the member happen in the init phase
         for g in self.family_funcs(cls):
             if g.m in initp:
@@ -341,6 +345,28 @@ class R1:
         g, n, fact = vals[0]
         return "member %s validated at init: %s raises an error when %s(%s)" % (
             mq, g.q, fact[0], fact[1])
+
+    def callers_after_validation(self, f, cls, ke, initp, depth, seen):
+        if depth > 5 or f.m in seen:
+            return None
+        seen = seen | {f.m}
+        callers = self.cg.callers(f.m)
+        if not callers:
+            return None
+        for g, call in callers:
+            r = X.receiver(call) if call["k"] == "CXXMemberCallExpr" else None
+            same_obj = r is not None and X.strip(r)["k"] == "CXXThisExpr"
+            if not same_obj:
+                # called on another, already constructed object: its init is over
+                continue
+            facts, gs = C.guard_facts(g, call, X.const_locals(g))
+            if ("nz", ke) in facts or ("pos", ke) in facts:
+                continue
+            if g.m not in initp:
+                continue
+            if not self.callers_after_validation(g, cls, ke, initp, depth + 1, seen):
+                return None
+        return "callers guard or run after init"
 
     def derived_bool(self, cls, bname, mq):
         """All assignments to this.<bname> in the class family have an RHS that, when
